@@ -305,6 +305,10 @@ def linkOff (s : St) (l : Nat) : St :=
 
 def linkOnEv (s : St) (l : Nat) : St := { s with linkOn := upd s.linkOn l true }
 
+/-- `true`: `CommImpl::start` as it is in /repo now (`xbt_assert(from_->is_on()); xbt_assert(to_->is_on());`);
+`false`: the code with props/C10/proposed_fix.diff applied (the comm fails with SRC/DST_HOST_FAILURE instead). -/
+def startAsserts : Bool := true
+
 /-- `CommImpl::start` -/
 def commStart (s : St) (k : Nat) : St :=
   let c := s.acts k
@@ -317,7 +321,12 @@ def commStart (s : St) (k : Nat) : St :=
   | _, none => s.crash
   | some fromH, some toH =>
   -- xbt_assert(from_->is_on()); xbt_assert(to_->is_on());
-  if ¬ s.hostOn fromH ∨ ¬ s.hostOn toH then s.crash else
+  if ¬ s.hostOn fromH ∨ ¬ s.hostOn toH then
+    (if startAsserts then s.crash
+     else
+       let st : AState := if s.hostOn fromH then .dstHostFailure else .srcHostFailure
+       finishComm (s.setAct k (fun x => { x with from_ := some fromH, to_ := some toH, state := st })) k)
+  else
   let r := s.route fromH toH
   let failed := r.any (fun l => ! s.linkOn l)
   let s := s.setAct k (fun x => { x with from_ := some fromH, to_ := some toH, links := r, state := .running,
